@@ -14,6 +14,16 @@ fn main() {
     if !cfg!(miri) && !args.iter().any(|a| a == "--child" || a == "--trial") {
         std::process::exit(supervise(&prop, &args[1..]));
     }
+    if args.iter().any(|a| a == "--child") {
+        // a supervised child never outlives its supervisor
+        let parent = std::os::unix::process::parent_id();
+        std::thread::spawn(move || loop {
+            std::thread::sleep(std::time::Duration::from_secs(1));
+            if std::os::unix::process::parent_id() != parent {
+                std::process::exit(2);
+            }
+        });
+    }
     let args: Vec<String> = args.into_iter().filter(|a| a != "--child").collect();
     let mut tier = match std::env::var("VERIF_TIER").as_deref() {
         Ok("thorough") => runner::Tier::Thorough,
